@@ -52,7 +52,12 @@ def scalar_op(I, op, x, y, node=None):
     if op is ast.BitAnd: return And(x, y)
     if op is ast.Pow:
         yy = conc(y)
-        if isinstance(yy, int) and 0 <= yy <= 4:
+        if isinstance(yy, float) and yy.is_integer(): yy = int(yy)
+        if z3.is_expr(yy):
+            sy = z3.simplify(yy)
+            if z3.is_int_value(sy): yy = sy.as_long()
+            elif z3.is_rational_value(sy) and sy.denominator_as_long() == 1: yy = sy.numerator_as_long()
+        if isinstance(yy, int) and not isinstance(yy, bool) and 0 <= yy <= 4:
             r = None
             for _ in range(yy): r = x if r is None else r * x
             return r if r is not None else (IntVal(1) if x.sort() == IntS else RealVal(1))
